@@ -25,7 +25,7 @@ def one(i):
     shared = len([t for s in sc['sensors'] for t in s['stamps']]) > \
         len({t for s in sc['sensors'] for t in s['stamps']})
     return dict(i=i, regime=sc['regime'], wa=bool(kn['with_altitude']), ts=kn['time_step'],
-                shared=shared, asyn=bool(sc.get('asynchronous')), mask=any(isinstance(kn[w]['bias_sd'], list)
+                shared=shared, quiet=bool(sc.get('quiet')), asyn=bool(sc.get('asynchronous')), mask=any(isinstance(kn[w]['bias_sd'], list)
                                         for w in ('gyro_model', 'accel_model')),
                 met=[[m['D'], m['Dg'], m['Da'], m['Dsd']] for m in met])
 
@@ -36,13 +36,16 @@ if __name__ == '__main__':
     with ProcessPoolExecutor(int(os.environ.get('VERIF_WORKERS', '12')),
                              mp_context=multiprocessing.get_context('fork')) as ex:
         res = list(ex.map(one, range(n), chunksize=4))
-    json.dump(res, open(os.path.join(os.path.dirname(__file__), 'c12_calibration.json'), 'w'))
+    json.dump(res, open(os.path.join(os.path.dirname(__file__), 'c12_calibration_quiet.json' if os.environ.get('VERIF_C12_QUIET') else 'c12_calibration.json'), 'w'))
     ok = [r for r in res if 'err' not in r]
     print(len(ok), 'worlds;', len(res) - len(ok), 'errors')
-    for reg in ('weak', 'strong'):
+    for quiet in (False, True):
+     print('quiet worlds' if quiet else 'ordinary worlds')
+     for reg in ('weak', 'strong'):
       for asyn in (False, True):
         for wa in (True, False):
-            rr = [r for r in ok if r['regime'] == reg and r['wa'] == wa and r['asyn'] == asyn]
+            rr = [r for r in ok if r['regime'] == reg and r['wa'] == wa and r['asyn'] == asyn
+                  and bool(r.get('quiet')) == quiet]
             if not rr:
                 continue
             m = np.array([r['met'] for r in rr])        # world, scale, metric
